@@ -569,6 +569,7 @@ func init() {
 		Build: func(c *Ctx) []*an.Oblig {
 			rvObligations(c, func(fn string) bool { return strings.Contains(fn, "Notifier") || fn == "valueOfNotifierTarget" })
 			notifierRules(c)
+			subscribeCancelContext(c)
 			out := c.sel(func(o *an.Oblig) bool {
 				if isUndecided(o) || o.Rule == "ANCHOR" {
 					return true
@@ -584,4 +585,42 @@ func init() {
 			floorKey("G Notifier.subscribers", 5, "G/", "Notifier.subscribers"),
 		},
 	})
+}
+
+// subscribeCancelContext: the subscription made by SubscribeCancel lives under the very context that the returned
+// cancel function cancels (and that the unsubscribing watcher waits for). Registered under the parent instead, cancel
+// neither stops deliveries nor releases a publisher blocked on the target - which then holds the read lock the
+// watcher's Unsubscribe needs, for ever.
+func subscribeCancelContext(c *Ctx) {
+	P := c.P
+	q := c.F("(*Notifier).SubscribeCancel")
+	if !q.ok() {
+		return
+	}
+	wcs := P.CallsTo(q.fn, "context.WithCancel")
+	subs := P.CallsTo(q.fn, "(*Notifier).SubscribeContext")
+	if !q.need(wcs, "PROV", "derived context") || !q.need(subs, "PROV", "SubscribeContext call") {
+		return
+	}
+	derived, cancel := resultOf(wcs[0], 0), resultOf(wcs[0], 1)
+	// the context argument as it is at the call (the variable may have held the parent before)
+	arg := callArg(subs[0], 1)
+	okc := arg == derived
+	if !okc {
+		if rv, ok := P.ReachingStore(arg); ok {
+			okc = rv == derived
+		}
+	}
+	q.add("PROV", "the subscription is registered under the context that the returned cancel cancels", okc && len(wcs) == 1 && len(subs) == 1,
+		pickS(okc, "SubscribeContext(derived, key, target) with derived, cancel := WithCancel(parent)", "the subscription is registered under another context than the one the returned cancel function cancels: cancel does not stop deliveries to it and does not release a publisher blocked on it"), subs[0])
+	for _, r := range returnsOf(q.fn) {
+		okr := false
+		for _, v := range c.retVals(r, 0) {
+			okr = v == cancel
+			if !okr {
+				break
+			}
+		}
+		q.add("PROV", "the function returned is that context's cancel", okr, "return cancel of the same WithCancel", r)
+	}
 }
